@@ -24,6 +24,11 @@ def check(ctx):
     check_boundary_row(ctx, "C01-b")
     check_alpha_lookup(ctx, "C01-c")
     check_ideal(ctx, "C01-d")
+    # C01-e: the frac-face value applied is the configured one: a simulate() that rewrites the configuration makes a later
+    # run relax to a stale schedule (shared effect rule of C10)
+    from .c10 import family_rules
+
+    family_rules(ctx, {"b": "C01-e"})
     ctx.floor("C01", len(ctx.obligs), 12, "maximum-principle obligations")
 
 
